@@ -13,7 +13,7 @@
    [sqrtf] is np.sqrt: any function with the defining property of the square root. *)
 From Coq Require Import Reals List Bool.
 From Verif Require Import Base.Num Base.Vec Base.VecR C08.Model C08.VecLemmas C08.Rules C08.Proofs
-  C08.ProxRules C08.Moreau C08.GradEq.
+  C08.ProxRules C08.Moreau C08.GradEq C08.Biconj.
 Import ListNotations.
 Local Open Scope R_scope.
 
@@ -81,3 +81,25 @@ Theorem fenchel_young_equality_at_gradient :
   eadd vx vg = EFin (wdot w x g).
 Proof. exact grad_equality_tree. Qed.
 Print Assumptions fenchel_young_equality_at_gradient.
+
+(* T2 (partial)  f.convex_conj.convex_conj takes the same values as f, for every tree on which the
+   library can evaluate both:  [veq (Ok a) (Ok b)] is equality of extended values (finite values equal
+   as reals, +inf = +inf).  The trees for which f** is only the unevaluable default conjugate (Huber,
+   QuadraticPerturb with a <> 0 inside a conjugate, ...) make the premise false.
+   Full statement = the same without [B e].  [B] (C08/Biconj.v) excludes scalar multiples s*f, f(s.) of a
+   functional whose CONJUGATE is flagged linear (e.g. 2 * IndicatorZero: Functional.__mul__ then builds a
+   LeftScalarMult) and QuadraticForm with both operator and vector; those are compared by the
+   correspondence (k_ccshape, k_ccval) and the 'biconj' probes only -- not refuted, not proved. *)
+Theorem biconjugate_partial :
+  forall (sqrtf : R -> R), (forall a, 0 <= a -> 0 <= sqrtf a /\ sqrtf a * sqrtf a = a) ->
+  forall (e e' e'' : fxR) (n : nat) (w x : list R) (vx vxx : extR),
+  wf n e -> B e -> length w = n -> length x = n ->
+  value sqrtf 0 e w x = Ok vx -> cconj w e = Ok e' -> cconj w e' = Ok e'' ->
+  value sqrtf 0 e'' w x = Ok vxx -> veq (Ok vxx) (Ok vx).
+Proof. exact biconj_tree. Qed.
+Print Assumptions biconjugate_partial.
+
+Example B_example :
+  let e : fxR := FLeft 2 (FTransl (FSep2 1 (FHuber 1) (FRight (-3) (FLp P2))) [1; 0; 2]) in
+  wf 3 e /\ B e.
+Proof. exact B_example_proof. Qed.
